@@ -33,11 +33,12 @@ sites, ideally breaking different clauses of the property — such that each one
   4. looks like something a real developer could plausibly commit (an "optimisation", a refactoring slip, a dropped
      check on one path, an off-by-one, a wrong variable, two cooperating sites that each look fine alone ...),
      not sabotage, and is small (roughly <= 30 changed lines).
-To spread the two changes over different kinds of mistakes: change A should be a BOUNDARY or DATA-HANDLING mistake (an off-by-one, a
-length / size / index / offset computed or compared wrongly, a wrong constant, a sign or width conversion, a wrong variable of the right type, a
-condition that is wrong for exactly one value or one combination); change B should be a STATE or CONTROL-FLOW mistake (a missing or misplaced
-clean-up / rollback / reset on one error path, a stale cached value, two steps in the wrong order, a check moved after the use, a flag not
-cleared or not set on one path, a lock released too early, work skipped by a short-cut that is valid most of the time but not always).
+To spread the two changes over different kinds of mistakes: change A should only show LATER or ELSEWHERE than where it is made - after a
+C_Finalize/C_Initialize, in a new process, in another session or another token, after a logout/login cycle, on the second use of something
+(stale cache, state that survives when it should not, state that is lost when it should survive, something persisted differently from how
+it is used in memory); change B should sit on a RARELY TAKEN VARIANT of a common path - the less common key type, mechanism, parameter
+shape, attribute kind, object class, session kind, or the second of several similar functions (the copy-pasted sibling that gets the
+slightly wrong condition), while the common variant keeps working.
 Prefer changes that need something SPECIFIC to manifest — a particular multi-step sequence of operations, an unusual
 but legal input (length, attribute combination, key type, mechanism parameter), a particular interleaving, a crash or
 I/O fault at a particular point, a specific configuration — and that ordinary use or the obvious smoke test would NOT
